@@ -38,19 +38,74 @@ class C10(Prop):
     named_errors = set()
 
     def project(self, op, ans):
-        # `hits` is a performance counter and `range` the iterator's internal resume point after
-        # exhaustion: the property constrains neither (a faster strategy must not raise an alarm)
+        # `Matches::hits()` is documented as a performance counter ("number of times the slow exec was
+        # invoked") and `Matches::range()` as the remaining range: the property fixes neither value
+        # EXACTLY (a search strategy that calls the interpreter less often, or resumes elsewhere after
+        # exhaustion, is not a violation), so the exact values are outside the compared projection.
+        # What every correct run satisfies (Thm/C10Pos.lean: C10_scan_hits, C10_scan_hits_no_overflow) is
+        # checked on the implementation's own answer by `range_hits_oracle` below.
         a = Prop.project(self, op, ans)
         return re.sub(r" range=\d+\.\.\d+ hits=\d+", "", a) if isinstance(a, str) else a
+
+    @staticmethod
+    def own_positions(op, hits):
+        """positions of the implementation's matches as its caller can observe them: its own save[0] when the
+        pattern starts with Save(0), the array has a slot 0 and no later atom writes it (C10_pos_is_save0)"""
+        a = op.split(" ")
+        atoms, nsave = a[2], int(a[-1])
+        if atoms.startswith("Save(0)") and nsave >= 1 and not re.search(r"Save\(0\).*(Save|Zero|Read\w+)\(0\)", atoms):
+            return [int(h[0]) for h in hits]
+        return None
+
+    def range_hits_oracle(self, op, impl, model, spec):
+        """`ok [..] range=<s>..<e> hits=<n> more=<m>` of scan / scan_code against C10_scan_hits /
+        C10_scan_hits_no_overflow — theorems without any hypothesis on image, pattern or range, so this is
+        applied whenever the implementation answered in that shape: with lo0..hi0 the range the Matches
+        object was created with, e = hi0 (range.end never changes), lo0 <= s <= max(lo0, hi0) (range.start
+        never decreases and never passes the end), every reported position p has lo0 <= p < s (start
+        advances past each reported candidate), and #reported <= n <= s - lo0 (each reported match cost one
+        interpreter call; each call is paid for by one position of progress: C10_hits_bounded)."""
+        m = re.match(r"ok (\[\S*\]) range=(\d+)\.\.(\d+) hits=(\d+) more=([01])$", impl)
+        lo0, hi0 = spec_field(spec, "lo0"), spec_field(spec, "hi0")
+        if not m or lo0 is None or hi0 is None or not lo0.isdigit() or not hi0.isdigit():
+            return None
+        lo0, hi0 = int(lo0), int(hi0)
+        s, e, n = int(m.group(2)), int(m.group(3)), int(m.group(4))
+        hits = parse_hits(m.group(1))
+        if hits is None:
+            return None
+        if e != hi0:
+            return "range.end changed: the scan was started over %d..%d and ends with range=%d..%d" % (lo0, hi0, s, e)
+        if s < lo0:
+            return "range.start moved backwards: started at %d, ends with range=%d..%d" % (lo0, s, e)
+        if s > max(lo0, hi0):
+            return "range.start %d passed the end of the range %d..%d" % (s, lo0, hi0)
+        if n < len(hits):
+            return "hits=%d is below the number of reported matches %d (every reported match is one exec call)" % (n, len(hits))
+        if n > s - lo0:
+            return "hits=%d exceeds the %d positions range.start advanced (%d -> %d)" % (n, s - lo0, lo0, s)
+        pos = self.own_positions(op, hits)
+        if pos is None and impl == model:
+            p = spec_field(spec, "pos")
+            pos = [int(x) for x in p[1:-1].split(",")] if p and p != "[]" else []
+        for p in pos or []:
+            if not (lo0 <= p < s):
+                return "reported position %d is not in [%d, %d) = [range.start before, range.start after)" % (p, lo0, s)
+        return None
     pid = "C10"
     title = "the scanner reports exactly the positions where the pattern matches"
-    thm_modules = ["PeliteModel.Thm.C10", "PeliteModel.Thm.C10Pos"]
+    thm_modules = ["PeliteModel.Thm.C10", "PeliteModel.Thm.C10Pos", "PeliteModel.Thm.Witnesses64"]
     gens = [gen_scan.gen_corpus, gen_scan.gen_scan, gen_scan.gen_skiptable, gen_scan.gen_exec]
 
     def oracle(self, op, impl, model, spec):
         fam = op.split(" ", 1)[0]
         if fam not in ("scan", "scan_code", "finds", "finds_code"):
             return None
+        if fam in ("scan", "scan_code"):
+            # range= / hits= of the implementation's own answer: no hypothesis (any image, pattern, range)
+            r = self.range_hits_oracle(op, impl, model, spec)
+            if r:
+                return r
         if fam.startswith("finds") and spec_field(spec, "nr") == "1":
             # default criterion (C10_finds_iff_one_reported): finds succeeds precisely when the exhaustive scan
             # from the same initial state reports exactly one match, whose captures it leaves in the save array;
